@@ -38,23 +38,32 @@ def run_workers(prop, tier, seed, mod, extra_env=None):
             e.pop("PYTHONSTARTUP", None)
             if extra_env:
                 e.update(extra_env)
+            # worker output (progress bars of the library, warnings) goes to a file, never to a pipe that could
+            # fill up and block the worker while the runner waits for another shard
+            logf = open(os.path.join(tmp, "shard%d.log" % i), "wb")
             p = subprocess.Popen([sys.executable, "-m", "dynmon.worker", prop, tier, str(seed),
                                   str(i), str(n), out], env=e, cwd=env.VERIF,
-                                 stdout=subprocess.PIPE, stderr=subprocess.STDOUT)
+                                 stdout=logf, stderr=subprocess.STDOUT)
+            logf.close()
             procs.append((i, p, out, e["PYTHONHASHSEED"]))
         results, problems = [], []
         deadline = time.time() + mod.BUDGET[tier] * 6 + 180     # generous wall-clock watchdog (budgets are CPU time)
         for i, p, out, hs in procs:
             try:
-                so, _ = p.communicate(timeout=max(1, deadline - time.time()))
+                p.wait(timeout=max(1, deadline - time.time()))
             except subprocess.TimeoutExpired:
                 p.kill()
-                p.communicate()
+                p.wait()
                 problems.append("shard %d killed by the watchdog" % i)
                 continue
             if not os.path.exists(out):
+                try:
+                    with open(os.path.join(tmp, "shard%d.log" % i), "rb") as lf:
+                        so = lf.read()[-800:]
+                except OSError:
+                    so = b""
                 problems.append("shard %d produced no result (exit %s): %s"
-                                % (i, p.returncode, so.decode("utf-8", "replace")[-800:]))
+                                % (i, p.returncode, so.decode("utf-8", "replace")))
                 continue
             with open(out) as f:
                 r = json.load(f)
